@@ -99,8 +99,10 @@ PadTo(s, w) == IF Len(s) >= w THEN s ELSE s \o Spaces(w - Len(s))
 RECURSIVE Digits(_)
 Digits(n) == IF n < 10 THEN <<48 + n>> ELSE Digits(n \div 10) \o <<48 + (n % 10)>>
 
+\* concatenation of a sequence of sequences, by halving (recursion depth log n: TLC's evaluator is recursive itself)
 RECURSIVE Flatten(_)
-Flatten(ss) == IF ss = <<>> THEN <<>> ELSE Head(ss) \o Flatten(Tail(ss))
+Flatten(ss) == IF Len(ss) = 0 THEN <<>> ELSE IF Len(ss) = 1 THEN ss[1]
+               ELSE LET h == Len(ss) \div 2 IN Flatten(SubSeq(ss, 1, h)) \o Flatten(SubSeq(ss, h + 1, Len(ss)))
 RECURSIVE Product(_)
 Product(d) == IF d = <<>> THEN 1 ELSE Head(d) * Product(Tail(d))
 MaxOf(S) == IF S = {} THEN 0 ELSE CHOOSE m \in S : \A x \in S : x <= m
